@@ -271,6 +271,8 @@ let () =
            if has "inv" && fn.w.w_inval_on then begin
              if exec = 0 && invlog = "-" then fail "inv" (Printf.sprintf "f%d x=%d: cached value served without consulting invalidate_on" f x);
              if invlog <> "-" && invb && exec = 0 then fail "inv" (Printf.sprintf "f%d x=%d: stale entry served" f x);
+             if invlog <> "-" && invb && exec > 0 && enc_v <> int_of_n (enc body) then
+               fail "inv" (Printf.sprintf "f%d x=%d: the check rejected the cached entry and the body ran, yet the call returned %d instead of the body's result %d" f x enc_v (int_of_n (enc body)));
              if invlog <> "-" && not invb && exec > 0 then fail "inv" (Printf.sprintf "f%d x=%d: fresh entry recomputed" f x);
              let fits = (match fn.w.w_cfg.maxmem with None -> true | Some m -> size <= int_of_n m) in
              let newest_survives = fn.w.w_cfg.maxmem = None || fn.fl = "a" || fn.w.w_cfg.pol = FIFO || fn.w.w_cfg.pol = LRU in
@@ -610,6 +612,14 @@ let () =
                         fail "c20" (Printf.sprintf "f%d x=%d: the entry stored by the resumed call is born at %d ms, the call resumed at %d ms" f x born (int_of_n now))
                       | _ -> ())
                   | None -> ());
+               (* history stamps: the resumed call's store is a store like any other *)
+               (match List.find_opt (fun wi -> wi.wf = f && wi.wtid = -1) instances with
+                | Some wi -> (match List.assoc_opt x wi.wstore with
+                    | Some (v, _, _) when v = int_of_n (enc ci.ci_body) ->
+                      Hashtbl.replace stored_at (f, -1, x) !evidx; Hashtbl.replace used_at (f, -1, x) !evidx;
+                      Hashtbl.replace stored_time (f, -1, x) (int_of_n now)
+                    | _ -> ())
+                | None -> ());
                (* a resumed store that REPLACES an entry (another call stored the key meanwhile) evicts nothing;
                   the queue holds every stored key once; a result too large to be cached leaves no entry for its key *)
                if has "c20" && field "panic" = None then begin
@@ -690,6 +700,22 @@ let () =
        | "invc", f :: _ ->
          let (w', b) = invalidate_cache (n_of_int (intern fns.(int_of_string f).name)) !world in
          set_world w';
+         if has "tags" then begin
+           (* by name: true exactly when this global/async cache has been used and declares a tag, event or dependency
+              (only then does it register a clear callback); afterwards it holds nothing *)
+           let fi = int_of_string f in
+           let fn = fns.(fi) in
+           let used = List.exists (fun wi -> wi.wf = fi && wi.wtid = -1) instances || Hashtbl.mem prev_inst (fi, -1) in
+           let want = used && fn.fl <> "t" && (fn.tags <> [] || fn.events <> [] || fn.deps <> []) in
+           (* several functions may share one name attribute; then the model's answer stands *)
+           let unique_name = Array.to_list fns |> List.filter (fun g -> g.name = fn.name) |> List.length = 1 in
+           if unique_name && rl <> ["bool"; (if want then "1" else "0")] then
+             fail "tags" (Printf.sprintf "invalidate_cache(%s) returned %s; the cache %s" fn.name !got_r
+                            (if want then "has been used and declares a label, so it is registered under its name" else "is not registered"));
+           if unique_name && want then
+             List.iter (fun wi -> if wi.wf = fi && wi.wtid = -1 && (wi.wq <> [] || wi.wstore <> []) then
+                           fail "tags" (Printf.sprintf "invalidate_cache(%s) returned but f%d still holds entries" fn.name fi)) instances
+         end;
          if rl <> ["bool"; (if b then "1" else "0")] then
            set_verdict (Printf.sprintf "MISMATCH %d invc f%s model=%b impl=%s" !evidx f b !got_r)
        | "invcn", name :: _ ->
